@@ -57,7 +57,9 @@ def shards(tier):
                 out.append(dict(fam="orders", size=i, cap=cap, n=n))
     tr = [dict(fam="tiny_random", placer=p, size=i)
           for p in ("rand", "sa_python", "sa_c") for i in range(2)]
-    return tr + out
+    mx = [dict(fam="sa_mixed", placer=p, k=k)
+          for p in ("sa_python", "sa_c") for k in range(4)]
+    return tr + mx + out
 
 
 # ------------------------------------------------------------------ building
@@ -121,7 +123,7 @@ def call_placer(placer, vr, nets, machine, cons, rnd, tier, case):
         hilbert, rcm, rand
     from rig.place_and_route.place.sa import algorithm as sa
     steps = [0]
-    limit = scope(tier)["temperature_steps"]
+    limit = case.get("steps") or scope(tier)["temperature_steps"]
 
     def stop(*a):
         steps[0] += 1
@@ -536,6 +538,34 @@ def fam_tiny_random(params, tier, acc):
                     acc.nontrivial += 1
                     run_case(case, acc, tier, 2 if tier == "quick" else 3)
     acc.sample(dict(fam="tiny_random"))
+
+
+def fam_sa_mixed(params, tier, acc):
+    """Annealing with mixed vertex sizes on exactly-full chips: swaps that
+    displace several vertices at once.  The owned random source is explored
+    with one deviation from the fair stream; more temperature steps."""
+    placer, k = params["placer"], params["k"]
+    sets = [(3, 1, 2, 2), (3, 1, 2, 2, 2, 2), (3, 1, 1, 1, 2), (2, 2, 1, 3, 4),
+            (3, 1, 2, 2, 4), (1, 1, 2, 3, 1), (4, 2, 2, 3, 1), (3, 3, 1, 1)]
+    i = -1
+    for (w, h) in ((2, 1), (3, 1), (2, 2)):
+        for needs in sets:
+            if sum(needs) > 4 * w * h:
+                continue
+            i += 1
+            if i % 4 != k:
+                continue
+            names = ["v%d" % j for j in range(len(needs))]
+            for netk in ("chain", "star"):
+                nets = chain_nets(names) if netk == "chain" else \
+                    [[names[0], names[1:], 1.0], [names[-1], [names[0]], 2.0]]
+                case = dict(w=w, h=h, cap=4, dead=[], reservations=[],
+                            vertices=[[a, b] for a, b in zip(names, needs)],
+                            nets=nets, placer=placer, fam="sa_mixed",
+                            effort=1.0, steps=4)
+                acc.nontrivial += 1
+                run_case(case, acc, tier, 1 if tier == "quick" else 2)
+    acc.sample(dict(fam="sa_mixed", placer=placer, sets=sets))
 
 
 _must = must_succeed
